@@ -325,12 +325,20 @@ class ReuseDep5(GlobalLicensing):
         return {
             PrecedenceType.AGGREGATE: [
                 ReuseInfo(
-                    spdx_expressions=set(
-                        map(_LICENSING.parse, [result.license.synopsis])
-                    ),
-                    copyright_lines=set(
-                        map(str.strip, result.copyright.splitlines())
-                    ),
+                    # A License field may consist of the licence's text
+                    # alone, without a synopsis.
+                    spdx_expressions={
+                        _LICENSING.parse(synopsis)
+                        for synopsis in [result.license.synopsis]
+                        if synopsis.strip()
+                    },
+                    # A Copyright field may begin on its second line, and
+                    # ' .' stands for an empty line in it. Neither is a notice.
+                    copyright_lines={
+                        line.strip()
+                        for line in result.copyright.splitlines()
+                        if line.strip() not in ("", ".")
+                    },
                     path=path,
                     source_type=SourceType.DEP5,
                     # This is hardcoded. It must be a relative path from the
